@@ -100,6 +100,9 @@ class Engine:
                 if str(r) == 'sat':
                     self._alt_model = s2.model()
                 self.fallbacks += 1
+                if str(r) == 'unknown':
+                    # third stage: the incremental solver again, now with the full limit (the two solvers are strong on different queries)
+                    r = self.solver.check(*extra)
         else:
             r = self.solver.check(*extra)
         self.solver_s += time.time() - t
